@@ -36,6 +36,7 @@ CONSTANTS Layer,      \* "A" | "B"
           Programs,   \* feature vectors explored
           Configs,    \* configurations explored
           DirNames,   \* output directory names
+          StaleChoices, \* which sets of directories may hold stale files beforehand (a set of subsets of DirNames)
           MaxPerm,    \* at most this many keys are permuted at a site (more keys are folded onto MaxPerm)
           MaxJobs     \* at most this many persist jobs (more files are folded)
 
@@ -92,7 +93,7 @@ Init == /\ pc = "root" /\ p = Base /\ c = Cfg("-", "go", {}, "none", TRUE)
 \* pick the case and what the directories contain beforehand (per directory: nothing or stale files everywhere)
 Pick == /\ pc = "root"
         /\ p' \in Programs /\ c' \in Configs
-        /\ \E stale \in SUBSET DirNames :
+        /\ \E stale \in StaleChoices :
              disk' = [d \in DirNames |-> [o \in FileObjs |-> IF d \in stale THEN Stale ELSE Absent]]
         /\ pc' = "env"
         /\ UNCHANGED <<run, dir, at, walk, stdin, first, n, st, ret>>
